@@ -4,6 +4,7 @@ import (
 	"bytes"
 	"crypto/sha256"
 	"encoding/hex"
+	"errors"
 
 	"github.com/btcsuite/btcd/btcutil"
 	"github.com/btcsuite/btcd/btcutil/psbt"
@@ -91,18 +92,6 @@ func (b *BitcoinOnChain) ValidateTx(swapParams *swap.OpeningParams, openingTxHex
 		return false, err
 	}
 
-	var scriptOut *wire.TxOut
-
-	for _, out := range msgTx.TxOut {
-		if out.Value == int64(swapParams.Amount) {
-			scriptOut = out
-			break
-		}
-	}
-	if scriptOut == nil {
-		return false, nil
-	}
-
 	redeemScript, err := ParamsToTxScript(swapParams, BitcoinCsv)
 	if err != nil {
 		return false, err
@@ -117,8 +106,10 @@ func (b *BitcoinOnChain) ValidateTx(swapParams *swap.OpeningParams, openingTxHex
 		return false, err
 	}
 
-	if bytes.Compare(wantScript, scriptOut.PkScript) != 0 {
-		return false, err
+	// The swap output is the one that has both the amount and the script:
+	// another output (e.g. change) may happen to carry the same value.
+	if _, found := findSwapOutput(msgTx, swapParams.Amount, wantScript); !found {
+		return false, nil
 	}
 	return true, nil
 }
@@ -151,29 +142,28 @@ func (b *BitcoinOnChain) GetVoutAndVerify(txHex string, params *swap.OpeningPara
 		return false, 0, err
 	}
 
-	var scriptOut *wire.TxOut
-	var vout uint32
-	for i, out := range msgTx.TxOut {
-		if out.Value == int64(params.Amount) {
-			scriptOut = out
-			vout = uint32(i)
-			break
-		}
-	}
-	if scriptOut == nil {
-		return false, 0, err
-	}
-
 	wantScript, err := b.GetOutputScript(params)
 	if err != nil {
 		return false, 0, err
 	}
 
-	if bytes.Compare(wantScript, scriptOut.PkScript) != 0 {
-		return false, 0, err
+	vout, found := findSwapOutput(msgTx, params.Amount, wantScript)
+	if !found {
+		return false, 0, errors.New("opening transaction has no output with the swap amount and script")
 	}
 
 	return true, vout, nil
+}
+
+// findSwapOutput returns the index of the first output that pays exactly amount
+// to script.
+func findSwapOutput(tx *wire.MsgTx, amount uint64, script []byte) (uint32, bool) {
+	for i, out := range tx.TxOut {
+		if out.Value == int64(amount) && bytes.Equal(out.PkScript, script) {
+			return uint32(i), true
+		}
+	}
+	return 0, false
 }
 
 func (b *BitcoinOnChain) GetOutputScript(params *swap.OpeningParams) ([]byte, error) {
